@@ -44,4 +44,28 @@ PROPS = {
         "assumptions": ["irreducibility of the extension polynomials is NOT proved (gap, see DESIGN.md); Frobenius constants are certified on the basis vectors in the specification ring (linearity argued, not mechanised)"],
         "rule": "requests = decoder/encoder/conversion calls on values at and around the modulus (M-2..M+2, 2M, 2^k, type maxima), all truncations, EVERY root-of-unity order 1..two-adicity for the three fields (exhaustive) with an order check by repeated squaring on the implementation",
     },
+    "C21": {
+        "streams": [("c21", 32, 128)],
+        "trusted": [TIE_C,
+                    "model of Assertion (constructors, overlaps_with, validate_trace_width/length, apply, get_num_steps, Ord) and of prepare_assertions in lean/Wf/Model/Assertions.lean (hand-written branch by branch; field elements are opaque canonical values; BTreeSet = sorted list under the model of Ord; usize overflow not modelled)",
+                    "usize::is_power_of_two is modelled as 2^log2 n = n (lemma isPow2_iff: <-> exists k, n = 2^k); next_power_of_two (only an error payload) is compared by correspondence, not specified",
+                    "prepare_assertions is private: the stream reaches it through BoundaryConstraints::new and observes accept / panic kind / resulting constraint order"],
+        "assumptions": ["64-bit usize without overflow (first_step + stride*i and #values*stride far below 2^64)"],
+        "rule": "requests = constructor calls (ALL small argument combinations incl. every invalid class), (assertion, trace length) validations and step sets for EVERY valid assertion with stride/length <= 2*max and ~50 lengths each, and ALL unordered pairs (both call directions) of assertions valid for the same trace length n, n = 1,2,4..max (max = 32 quick / 128 thorough; column in {0,1}; single, periodic, sequence; every first step, stride, value count), plus ALL ordered pairs and random lists through the real prepare_assertions; oracle for overlap = same column and intersection of explicitly enumerated step sets; non-trivial = distinct request line",
+    },
+    "C07": {
+        "streams": [("obj", 150, 4000)],
+        "trusted": [TIE_C,
+                    "hand-written models of the wire formats in lean/Wf/Model/ProofObjects.lean (each decode mirrors read_from check by check, after the fix: commits); byte containers (Commitments, Queries, OodFrame, FriProofLayer, FriProof) are modelled as their byte payloads",
+                    "round trips of whole proofs and equal verdicts after decode(encode(proof)) are exercised by the protocol-level streams (C01/C08), not by this check"],
+        "assumptions": ["64-bit platform"],
+        "rule": "requests = encode/decode of generated constructor-valid values at the boundaries (width 1/254/255, aux 0/1/room, 0..255 random elements, 0/1/7/8/65535 metadata bytes, every options field at both ends, every enum tag, lengths 2^3..2^62) plus truncated/edited/extended encodings and random bytes; non-trivial = distinct request line",
+    },
+    "C24": {
+        "streams": [("objseed", 300, 6000), ("obj", 60, 1000)],
+        "trusted": [TIE_C,
+                    "model of TraceInfo/ProofOptions/Context::to_elements in lean/Wf/Model/ProofObjects.lean (canonical values of the produced elements; all packed words are < 2^32 < every modulus)"],
+        "assumptions": ["both contexts are over the same base field (equal modulus byte length)"],
+        "rule": "pairs of valid contexts differing in exactly one listed parameter (14 mutation kinds incl. metadata length / trailing zeros / one byte); the oracle says `distinct` whenever the contexts differ",
+    },
 }
